@@ -67,6 +67,10 @@ type Fault struct {
 	Kind  string `json:"kind"`
 	Errno int    `json:"errno,omitempty"`
 	Short int    `json:"short,omitempty"`
+	// Op, when set, makes At count calls of that system call only (e.g. the
+	// 2nd fsync); Sticky applies the fault to every later call of it as well.
+	Op     string `json:"op,omitempty"`
+	Sticky bool   `json:"sticky,omitempty"`
 }
 
 // SysRec is one recorded system call.
@@ -91,11 +95,12 @@ type Config struct {
 	// writes are cut short and then fail with ENOSPC.
 	DiskBudget int64
 	// Buggify: legal but unusual kernel behaviour.
-	DirentsPerCall int  // >0: ReadDirent returns at most this many entries per call
-	MaxWrite       int  // >0: Write/Pwrite accept at most this many bytes per call
-	HighFds        bool // descriptor numbers start at 1000
-	SplitPwrite    bool // a block-sized Pwrite is applied in two halves with a yield between
-	Trace          bool // record SysRecs
+	DirentsPerCall int   // >0: ReadDirent returns at most this many entries per call
+	MaxWrite       int   // >0: Write/Pwrite accept at most this many bytes per call
+	HighFds        bool  // descriptor numbers start at 1000
+	SplitPwrite    bool  // a block-sized Pwrite is applied in two halves with a yield between
+	SlowFsyncNs    int64 // >0: an fsync takes this much simulated time (other tasks run meanwhile)
+	Trace          bool  // record SysRecs
 }
 
 // Kernel is the simulated kernel state. Only the scheduler goroutine (handlers)
@@ -109,6 +114,7 @@ type Kernel struct {
 	journal []jop
 	durable map[int]*dinode
 	nsys    int
+	opCount map[string]int
 	used    int64
 	Trace   []SysRec
 	// FiredFaults counts faults that actually fired, by kind.
@@ -150,7 +156,7 @@ func kernelOf(s *simrt.Sim) *Kernel {
 }
 
 // SetFaults replaces the fault list and resets the syscall counter.
-func (k *Kernel) SetFaults(f []Fault) { k.cfg.Faults = f; k.nsys = 0 }
+func (k *Kernel) SetFaults(f []Fault) { k.cfg.Faults = f; k.nsys = 0; k.opCount = nil }
 
 // SetConfig replaces the configuration (between phases).
 func (k *Kernel) SetConfig(c Config) { k.cfg = c; k.nsys = 0 }
